@@ -642,6 +642,13 @@ func statusFromError(id uint32, err error) *sshFxpStatusPacket {
 		ret.StatusError.Code = sshFxNoSuchFile
 		return ret
 	}
+	if os.IsPermission(err) {
+		// like os.IsNotExist above this also covers os.ErrPermission itself and
+		// EACCES/EPERM inside *os.LinkError and *os.SyscallError, which
+		// translateSyscallError does not look into.
+		ret.StatusError.Code = sshFxPermissionDenied
+		return ret
+	}
 	if code, ok := translateSyscallError(err); ok {
 		ret.StatusError.Code = code
 		return ret
